@@ -36,17 +36,19 @@ const (
 	MkExecPanic                      // crosschain.executeClaim of a pending result claim whose bridge call is gone: the keeper deletes the claim, then PANICS
 	MkExecIBC                        // crosschain.executeClaim of a pending SendToFx claim that forwards over an OPEN IBC channel
 	MkExecIBCClosed                  // ... over a channel that has been CLOSED since: mint, conversion and escrow happen, then SendPacket refuses
+	MkBridgeTok                      // crosschain.bridgeCall without msg.value: a list of ERC-20 tokens, refund address without an account
+	MkBridgeTokFail                  // ... where one element of the list cannot be converted (unregistered token / above the balance)
 	MkFeeGone                        // crosschain.increaseBridgeFee with an ERC-20 on a transfer that is already in a batch (or never existed): the
 	                                 // closure takes the ERC-20 through the EVM, then the pool refuses
 )
 
 func (k MarkerKind) String() string {
-	return [...]string{"approve", "delegate", "xchain", "transferFail", "approveBad", "delegateFail", "bridgeCall", "cancel", "increaseFee", "rewards", "tokenCallback", "innerApprove", "executeClaim", "executeClaimPanic", "executeClaimIBC", "executeClaimIBCClosed", "increaseFeeGone"}[k]
+	return [...]string{"approve", "delegate", "xchain", "transferFail", "approveBad", "delegateFail", "bridgeCall", "cancel", "increaseFee", "rewards", "tokenCallback", "innerApprove", "executeClaim", "executeClaimPanic", "executeClaimIBC", "executeClaimIBCClosed", "bridgeCallTokens", "bridgeCallTokensFail", "increaseFeeGone"}[k]
 }
 
 func (k MarkerKind) designedOK() bool {
 	switch k {
-	case MkTransferFail, MkApproveBad, MkDelegateFail, MkExecPanic, MkExecIBCClosed, MkFeeGone:
+	case MkTransferFail, MkApproveBad, MkDelegateFail, MkExecPanic, MkExecIBCClosed, MkFeeGone, MkBridgeTokFail:
 		return false
 	}
 	return true
@@ -54,7 +56,7 @@ func (k MarkerKind) designedOK() bool {
 
 // failsInsideAction: the native action starts, writes, and then returns an error
 func (k MarkerKind) failsInsideAction() bool {
-	return k == MkTransferFail || k == MkDelegateFail || k == MkExecPanic || k == MkExecIBCClosed || k == MkFeeGone
+	return k == MkTransferFail || k == MkDelegateFail || k == MkExecPanic || k == MkExecIBCClosed || k == MkFeeGone || k == MkBridgeTokFail
 }
 
 // panics: the keeper call does not return an error, it panics (after having written)
@@ -72,6 +74,8 @@ type Marker struct {
 	Value  *big.Int `json:"-"`
 	Pool   int      `json:"pool"` // cancel / increaseFee: index of the pre-made pool entry
 	Inner  *Marker  `json:"inner"` // tokenCallback: the approveShares its token makes
+	Tokens  []common.Address `json:"-"` // bridgeCallTokens kinds: the requested list
+	Amounts []*big.Int       `json:"-"`
 	Claim  uint64   `json:"claim"` // executeClaim kinds: event nonce of the pending claim
 	Owner  common.Address // approve kinds: the account whose allowance is written (zero = the frame contract Ctx)
 }
